@@ -9,7 +9,7 @@
    differential oracle of vplib/props/c14.py. *)
 From Coq Require Import List NArith ZArith Bool Arith.
 From PV Require Import Lib.ListX Model.FmtLit Model.FmtPratt Model.Fmt Model.FmtInst
-  Proofs.FmtPrattProofs Proofs.FmtProofs Proofs.FmtInstProofs Gen.GenCodegen.
+  Proofs.FmtPrattProofs Proofs.FmtProofs Proofs.FmtLitProofs Proofs.FmtInstProofs Gen.GenCodegen.
 Import ListNotations.
 Local Open Scope N_scope.
 
@@ -65,6 +65,89 @@ Theorem parse_fuel_monotone : forall f g ts e, (f <= g)%nat -> parse_prql f ts =
 Proof. exact (parse_mono P_prql). Qed.
 Print Assumptions parse_fuel_monotone.
 
+(* ================================================================== literals and identifiers (character level) *)
+
+(* ---- integers: Display of Literal::Integer, then lexer number() *)
+Theorem fmt_int_roundtrip : forall n, n <= i64_max -> lex_number (show_N n) = Some (NInt n, []).
+Proof. exact int_roundtrip. Qed.
+Print Assumptions fmt_int_roundtrip.
+
+(* ---- floats.  A float value is the decimal (m, e) Display prints.
+   Full statement (FALSE -- findings F11-float-integral, F11-float-nonfinite):
+     forall f, flt_wf f = true -> lex_number (fmt_float f) = Some (NFloat f, []) *)
+Theorem fmt_float_roundtrip_refuted : exists f, flt_wf f = true /\ lex_number (fmt_float f) <> Some (NFloat f, []).
+Proof. exact float_refuted. Qed.
+Print Assumptions fmt_float_roundtrip_refuted.
+
+(* 1.0 prints as `1` and lexes as Integer 1;  inf prints as `inf`, which is no number at all *)
+Theorem fmt_float_refutation_witnesses :
+  flt_wf (FFin 1 0) = true /\ lex_number (fmt_float (FFin 1 0)) = Some (NInt 1, []) /\ lex_number (fmt_float FInf) = None.
+Proof. exact float_roundtrip_refuted_witness. Qed.
+Print Assumptions fmt_float_refutation_witnesses.
+
+Theorem fmt_float_roundtrip_partial : forall m e,
+  flt_wf (FFin m e) = true -> float_prints_as_int (FFin m e) = false ->
+  lex_number (fmt_float (FFin m e)) = Some (NFloat (FFin m e), []).
+Proof. exact float_roundtrip. Qed.
+Print Assumptions fmt_float_roundtrip_partial.
+
+(* ---- strings: quote_string (escape_all_except_quotes s), then multi_quoted_string with escapes.
+   Full statement (FALSE -- finding C14-string-quote-edge):
+     forall s, forallb valid_scalar s = true -> lex_string (fmt_string s) = Some (s, []) *)
+Theorem fmt_string_roundtrip_refuted : exists s, forallb valid_scalar s = true /\ lex_string (fmt_string s) <> Some (s, []).
+Proof. exact string_refuted. Qed.
+Print Assumptions fmt_string_roundtrip_refuted.
+
+Theorem fmt_string_roundtrip_partial : forall s,
+  forallb valid_scalar s = true -> quote_edge (escape_all_except_quotes s) = false ->
+  lex_string (fmt_string s) = Some (s, []).
+Proof. exact string_roundtrip. Qed.
+Print Assumptions fmt_string_roundtrip_partial.
+
+Theorem fmt_raw_string_roundtrip : forall s, forallb raw_ok s = true -> lex_raw (fmt_raw s) = Some (s, []).
+Proof. exact raw_roundtrip. Qed.
+Print Assumptions fmt_raw_string_roundtrip.
+
+(* ---- identifiers.  Table obligation on the generated classes / keyword list, then the two printers:
+        write_ident_part (aliases, parameters, import paths) and display_ident_part (identifier expressions).
+   Rust's char::is_alphabetic / is_alphanumeric enter only through their ASCII restriction and one inclusion.
+   Full statements (FALSE -- findings F11-ident-keyword, C14-ident-dollar): the same without `*_known s = false`. *)
+Theorem fmt_ident_tables : idtab_ok I_prql = true.
+Proof. vm_compute. reflexivity. Qed.
+Print Assumptions fmt_ident_tables.
+
+Section UnicodeClasses.
+  Variable is_alpha is_alnum : N -> bool.
+  Hypothesis ascii_alpha : forall c, c < 128 -> is_alpha c = in_ranges letters c.
+  Hypothesis ascii_alnum : forall c, c < 128 -> is_alnum c = in_ranges alnum_ascii c.
+  Hypothesis alpha_alnum : forall c, is_alpha c = true -> is_alnum c = true.
+
+  Theorem fmt_ident_roundtrip_partial : forall s rest,
+    contains c_backtick s = false -> write_known I_prql s = false -> delim is_alnum rest ->
+    lex_word is_alpha is_alnum I_prql (write_ident_part I_prql s ++ rest) = Some (WIdent s, rest).
+  Proof. exact (write_ident_lexes is_alpha is_alnum ascii_alpha ascii_alnum alpha_alnum I_prql fmt_ident_tables). Qed.
+
+  Theorem fmt_expr_ident_roundtrip_partial : forall s rest,
+    contains c_backtick s = false -> display_known I_prql s = false -> delim is_alnum rest ->
+    lex_word is_alpha is_alnum I_prql (display_ident_part I_prql s ++ rest) = Some (WIdent s, rest).
+  Proof. exact (display_ident_lexes is_alpha is_alnum ascii_alpha ascii_alnum alpha_alnum I_prql fmt_ident_tables). Qed.
+End UnicodeClasses.
+Print Assumptions fmt_ident_roundtrip_partial.
+Print Assumptions fmt_expr_ident_roundtrip_partial.
+
+(* alias `import` is printed bare and lexes as a keyword; identifier `true` is printed bare and lexes as a boolean *)
+Theorem fmt_ident_roundtrip_refuted :
+  exists s, contains c_backtick s = false /\
+    lex_word ascii_alpha_f ascii_alnum_f I_prql (write_ident_part I_prql s ++ [32]) <> Some (WIdent s, [32]).
+Proof. exact write_ident_refuted. Qed.
+Print Assumptions fmt_ident_roundtrip_refuted.
+
+Theorem fmt_expr_ident_roundtrip_refuted :
+  exists s, contains c_backtick s = false /\
+    lex_word ascii_alpha_f ascii_alnum_f I_prql (display_ident_part I_prql s ++ [32]) <> Some (WIdent s, [32]).
+Proof. exact display_ident_refuted. Qed.
+Print Assumptions fmt_expr_ident_roundtrip_refuted.
+
 (* non-vacuity: concrete trees satisfy the hypotheses, and one of them is in the leak class *)
 Example ex_wf_tree : wf_expr (EBin 5 (idn 97) (EUn 0 (idn 98))) /\ leak F_prql (EBin 5 (idn 97) (EUn 0 (idn 98))) PUnspec = false.
 Proof. vm_compute. repeat split; reflexivity. Qed.
@@ -73,3 +156,17 @@ Proof. vm_compute. reflexivity. Qed.
 Example ex_roundtrip : parse_prql 40 (fmt_toks (ECall (idn 102) [ENamed [110] (idn 97); EUn 0 (idn 98); EGroup GTup [EAlias [120] (EBin 0 (idn 99) (idn 100))]]))
                        = Some (ECall (idn 102) [ENamed [110] (idn 97); EUn 0 (idn 98); EGroup GTup [EAlias [120] (EBin 0 (idn 99) (idn 100))]]).
 Proof. vm_compute. reflexivity. Qed.
+
+(* the hypotheses of the literal theorems are satisfiable: an ordinary alias, an escaped string, a fraction *)
+Example ex_ident_ok : write_known I_prql [97; 95; 49] = false /\ display_known I_prql [97; 95; 49] = false.
+Proof. vm_compute. split; reflexivity. Qed.
+Example ex_string_ok : quote_edge (escape_all_except_quotes [105; 116; 39; 115; 32; 34; 120; 34; 10]) = false
+  /\ lex_string (fmt_string [105; 116; 39; 115; 32; 34; 120; 34; 10]) = Some ([105; 116; 39; 115; 32; 34; 120; 34; 10], []).
+Proof. vm_compute. split; reflexivity. Qed.
+Example ex_float_ok : flt_wf (FFin 15 (-1)) = true /\ float_prints_as_int (FFin 15 (-1)) = false /\ fmt_float (FFin 15 (-1)) = [49; 46; 53].
+Proof. vm_compute. repeat split; reflexivity. Qed.
+Example ex_unicode_classes :
+  (forall c, c < 128 -> ascii_alpha_f c = in_ranges letters c) /\
+  (forall c, c < 128 -> ascii_alnum_f c = in_ranges alnum_ascii c) /\
+  (forall c, ascii_alpha_f c = true -> ascii_alnum_f c = true).
+Proof. exact ascii_classes_ok. Qed.
